@@ -778,6 +778,8 @@ class AllConnGraph(nx.DiGraph):
         A dictionary of auto_ivcs that require sync when setting intial values.
     _dangling_prom_inputs : set
         A set of dangling promoted inputs.
+    _vals_set : set
+        A set of source nodes whose value has been set by set_val since setup.
     """
 
     def __init__(self, *args, **kwargs):
@@ -787,6 +789,7 @@ class AllConnGraph(nx.DiGraph):
         self._first_pass = True
         self._required_conns = set()
         self._resolved = set()
+        self._vals_set = set()
         self._has_dynamic_shapes = False
         self._has_dynamic_units = False
         self._dist_shapes = None
@@ -1556,6 +1559,10 @@ class AllConnGraph(nx.DiGraph):
             # propagate shape and value down the tree
             self.set_tree_val(model, src_node, srcval)
 
+            # trees with dynamic shapes or units are resolved a second time during final_setup. The
+            # value set here must not be replaced by a set_input_defaults value at that time.
+            self._vals_set.add(src_node)
+
     def set_tree_val(self, model, src_node, srcval):
         """
         Set the value of a source in the tree and propagate it down the tree.
@@ -2298,7 +2305,9 @@ class AllConnGraph(nx.DiGraph):
                 val = self.get_val_from_children(model, node, children_meta, node_meta.defaults,
                                                  auto)
                 if val is not None:
-                    if node[1].startswith('_auto_ivc.'):
+                    if node in self._vals_set:
+                        pass  # keep the value that set_val has given to this auto_ivc since setup
+                    elif node[1].startswith('_auto_ivc.'):
                         val = deepcopy(val)
                         node_meta.val = val
                         if node_meta._locmeta is not None:
